@@ -172,3 +172,171 @@ fn probe_dlt_message_intern() {
     }
     println!("probe_dlt_message_intern: {} shaped buffers, no failing input", tried);
 }
+
+/// reference for C19: longest valid-UTF-8 prefix of the bytes before the first NUL among the
+/// first `size` bytes; exact consumption
+fn ref_zts(s: &[u8], size: usize) -> Option<(usize, Vec<u8>)> {
+    if s.len() < size {
+        return None;
+    }
+    let field = &s[..size];
+    let k = field.iter().position(|b| *b == 0).unwrap_or(size);
+    let content = &field[..k];
+    let valid = match std::str::from_utf8(content) {
+        Ok(_) => content.len(),
+        Err(e) => e.valid_up_to(),
+    };
+    Some((size, content[..valid].to_vec()))
+}
+
+#[test]
+fn probe_zero_terminated() {
+    use crate::parse::dlt_zero_terminated_string;
+    let alphabet: [u8; 6] = [0x00, 0x41, 0x7F, 0xC3, 0xA4, 0xFF];
+    let mut rng = Rng(seed());
+    for len in 0usize..=6 {
+        let total = 6usize.pow(len as u32);
+        for idx in 0..total.min(3000) {
+            let mut code = if total <= 3000 { idx } else { (rng.next() % total as u64) as usize };
+            let mut s = Vec::with_capacity(len);
+            for _ in 0..len {
+                s.push(alphabet[code % 6]);
+                code /= 6;
+            }
+            for size in 0usize..=7 {
+                let s2 = s.clone();
+                let r = std::panic::catch_unwind(move || match dlt_zero_terminated_string(&s2, size) {
+                    Ok((rest, t)) => Ok((s2.len() - rest.len(), t.as_bytes().to_vec())),
+                    Err(e) => Err(format!("{:?}", e)),
+                });
+                let want = ref_zts(&s, size);
+                match (r, want) {
+                    (Err(_), _) => report("dlt_zero_terminated_string_intern", format!("s={} size={}", hex(&s), size), "panic".into()),
+                    (Ok(Ok((c, t))), Some((wc, wt))) => {
+                        if c != wc || t != wt {
+                            report("dlt_zero_terminated_string_intern", format!("s={} size={}", hex(&s), size), format!("consumed {} text {} (reference: consumed {} text {})", c, hex(&t), wc, hex(&wt)));
+                        }
+                    }
+                    (Ok(Ok((c, t))), None) => report("dlt_zero_terminated_string_intern", format!("s={} size={}", hex(&s), size), format!("Ok(consumed {}, text {}) although fewer than size bytes are present", c, hex(&t))),
+                    (Ok(Err(e)), Some(_)) => report("dlt_zero_terminated_string_intern", format!("s={} size={}", hex(&s), size), format!("Err({}) although size bytes are present", e)),
+                    (Ok(Err(e)), None) => {
+                        if !e.contains("IncompleteParse") {
+                            report("dlt_zero_terminated_string_intern", format!("s={} size={}", hex(&s), size), format!("Err({}) instead of incomplete", e));
+                        }
+                    }
+                }
+            }
+        }
+    }
+}
+
+/// C09 decision on crafted messages: level / app id / context id / ECU id / count rules
+#[test]
+fn probe_filtered_out() {
+    use crate::filtering::{DltFilterConfig, ProcessedDltFilterConfig};
+    use crate::parse::{dlt_message, ParsedMessage};
+    let ids = ["APP", "XYZ"];
+    for with_ext in [true, false] {
+        for level in 1u8..=6 {
+            for min in [None, Some(1u8), Some(3), Some(6), Some(0), Some(9)] {
+                for app_sel in [None, Some(vec![]), Some(vec!["APP".to_string()]), Some(vec!["XYZ".to_string()]), Some(vec!["APP".to_string(), "XYZ".to_string()])] {
+                    for count in [0i64, 1, 2, 3] {
+                        let mut buf: Vec<u8> = Vec::new();
+                        let htyp = (1u8 << 5) | 0x04 | if with_ext { 1 } else { 0 };
+                        let len = 4 + 4 + if with_ext { 10 } else { 0 } + 4;
+                        buf.push(htyp);
+                        buf.push(0);
+                        buf.extend_from_slice(&(len as u16).to_be_bytes());
+                        buf.extend_from_slice(b"ECU\0");
+                        if with_ext {
+                            buf.push(level << 4);
+                            buf.push(0);
+                            buf.extend_from_slice(b"APP\0CTX\0");
+                        }
+                        buf.extend_from_slice(&[1, 2, 3, 4]);
+                        let cfg = DltFilterConfig { min_log_level: min, app_ids: app_sel.clone(), ecu_ids: None, context_ids: None, app_id_count: count, context_id_count: 0 };
+                        let p: ProcessedDltFilterConfig = cfg.into();
+                        let got = match dlt_message(&buf, Some(&p), false) {
+                            Ok((_, ParsedMessage::FilteredOut(_))) => true,
+                            Ok((_, ParsedMessage::Item(_))) => false,
+                            other => report("filtered_out", format!("bytes={}", hex(&buf)), format!("{:?}", other.map(|x| x.1))),
+                        };
+                        let want = if with_ext {
+                            let by_level = match min { Some(m) if (1..=6).contains(&m) => level > m, _ => false };
+                            let by_app = match &app_sel { Some(v) => !v.iter().any(|x| x == ids[0]), None => false };
+                            by_level || by_app
+                        } else {
+                            match &app_sel { Some(v) => { let mut d = v.clone(); d.sort(); d.dedup(); count > d.len() as i64 } None => false }
+                        };
+                        if got != want {
+                            report("filtered_out", format!("ext={} level={} min={:?} app_ids={:?} app_id_count={} bytes={}", with_ext, level, min, app_sel, count, hex(&buf)), format!("filtered_out={} (property: {})", got, want));
+                        }
+                    }
+                }
+            }
+        }
+    }
+}
+
+fn probe_headers() -> Vec<(StandardHeader, u16)> {
+    let mut v = Vec::new();
+    for flags in 0u8..16 {
+        let hl: u16 = 4 + if flags & 1 != 0 { 4 } else { 0 } + if flags & 2 != 0 { 4 } else { 0 } + if flags & 4 != 0 { 4 } else { 0 } + if flags & 8 != 0 { 10 } else { 0 };
+        for pl in [0u16, 1, 4, 100, 65535 - hl, 65534 - hl] {
+            v.push((
+                StandardHeader {
+                    version: 1,
+                    endianness: Endianness::Little,
+                    has_extended_header: flags & 8 != 0,
+                    message_counter: 0,
+                    ecu_id: if flags & 1 != 0 { Some("ECU".to_string()) } else { None },
+                    session_id: if flags & 2 != 0 { Some(7) } else { None },
+                    timestamp: if flags & 4 != 0 { Some(9) } else { None },
+                    payload_length: pl,
+                },
+                hl,
+            ));
+        }
+    }
+    v
+}
+
+#[test]
+fn probe_overall_length() {
+    for (h, hl) in probe_headers() {
+        let want = hl as u32 + h.payload_length as u32;
+        let h2 = h.clone();
+        match std::panic::catch_unwind(move || h2.overall_length()) {
+            Err(_) => report("StandardHeader::overall_length", format!("{:?}", h), "panic".into()),
+            Ok(r) => {
+                if r as u32 != want {
+                    report("StandardHeader::overall_length", format!("{:?}", h), format!("{} (layout: {})", r, want));
+                }
+            }
+        }
+    }
+}
+
+#[test]
+fn probe_validated_payload_length() {
+    use crate::parse::{validated_payload_length, DltParseError};
+    for (h, hl) in probe_headers() {
+        let len = hl as usize + h.payload_length as usize;
+        for remaining in [0usize, 1, len.saturating_sub(1), len, len + 1, 70000] {
+            let h2 = h.clone();
+            match std::panic::catch_unwind(move || validated_payload_length(&h2, remaining)) {
+                Err(_) => report("validated_payload_length", format!("{:?} remaining={}", h, remaining), "panic".into()),
+                Ok(r) => {
+                    let ok = if len > remaining {
+                        matches!(&r, Err(DltParseError::IncompleteParse { needed: Some(n) }) if n.get() == len - remaining)
+                    } else {
+                        matches!(&r, Ok(p) if *p == h.payload_length)
+                    };
+                    if !ok {
+                        report("validated_payload_length", format!("{:?} remaining={}", h, remaining), format!("{:?}", r));
+                    }
+                }
+            }
+        }
+    }
+}
